@@ -1494,3 +1494,93 @@ func c07Magnitude(rc *RuleCtx) {
 		}
 	}
 }
+
+func init() {
+	register(&Rule{ID: "C07.fixpoint", Floor: 2,
+		Text: "a loop of OrefaFS that climbs from a path to its ancestors with SplitAbs until it finds a registered node stops when SplitAbs returns its argument (the volume root: nothing above it) - otherwise a path on a volume that was never registered keeps the loop spinning for ever with the index lock held",
+		Run:  c07Fixpoint})
+}
+
+func c07Fixpoint(rc *RuleCtx) {
+	for _, f := range rc.C.srcFuncs("orefafs") {
+		n := 0
+		eachCall(f, func(ci ssa.CallInstruction) {
+			c, ok := ci.(*ssa.Call)
+			if !ok {
+				return
+			}
+			if fn := calleeFunc(c); fn == nil || fn.Name() != "SplitAbs" {
+				return
+			}
+			args := callArgs(c)
+			if len(args) == 0 {
+				return
+			}
+			arg := args[len(args)-1]
+			var up *ssa.Extract
+			for _, u := range referrersOf(c) {
+				if e, ok := u.(*ssa.Extract); ok && e.Index == 0 {
+					up = e
+				}
+			}
+			if up == nil {
+				return
+			}
+			// self-feeding: the argument is a phi (or a cell) that receives the call's first result on a back edge
+			feeds := false
+			seen := map[ssa.Value]bool{}
+			var reaches func(v ssa.Value, d int) bool
+			reaches = func(v ssa.Value, d int) bool {
+				if v == nil || d > 6 || seen[v] {
+					return false
+				}
+				seen[v] = true
+				if v == ssa.Value(up) {
+					return true
+				}
+				if phi, ok := v.(*ssa.Phi); ok {
+					for _, e := range phi.Edges {
+						if reaches(e, d+1) {
+							return true
+						}
+					}
+				}
+				for _, rv := range resolveRaw(v) {
+					if rv != v && reaches(rv, d+1) {
+						return true
+					}
+				}
+				return false
+			}
+			feeds = reaches(arg, 0)
+			if !feeds {
+				return
+			}
+			n++
+			cons := fmt.Sprintf("%s ancestor loop#%d", funcName(f), n)
+			stops := false
+			eachInstr(f, func(in ssa.Instruction) {
+				bo, ok := in.(*ssa.BinOp)
+				if !ok || (bo.Op != token.EQL && bo.Op != token.NEQ) {
+					return
+				}
+				x, y := strip(resolve1(bo.X)), strip(resolve1(bo.Y))
+				isUp := func(v ssa.Value) bool { return v == ssa.Value(up) }
+				isArg := func(v ssa.Value) bool { return v == strip(resolve1(arg)) || sameValue(v, arg) }
+				if (isUp(x) && isArg(y)) || (isUp(y) && isArg(x)) {
+					// the comparison must control an exit of the loop: one successor leaves towards a return
+					for _, u := range referrersOf(bo) {
+						if _, isIf := u.(*ssa.If); isIf {
+							stops = true
+						}
+					}
+				}
+			})
+			if stops {
+				rc.good(cons, c.Pos(), "the loop leaves when SplitAbs returns its argument")
+			} else {
+				rc.bad(cons, c.Pos(), "the loop climbs with SplitAbs until a node is found and has no exit for the case where SplitAbs returns its argument: for a path on an unregistered volume it never ends (and holds the index lock)")
+			}
+		})
+	}
+}
